@@ -13,7 +13,7 @@ import warnings
 from acnportal.acnsim.events import EventQueue, PluginEvent, UnplugEvent, RecomputeEvent
 from acnportal.acnsim.models import EV, Battery
 
-from mc.core import Acc, h64
+from mc.core import Acc, h64, guard
 
 ID = "C11"
 LEVEL = "model_checking"
@@ -167,6 +167,7 @@ def step(st: State, op, viol):
         else:
             raise ValueError(op)
     except Exception as exc:  # the queue operations have no documented failure on this alphabet
+        guard(exc)
         viol.append(("exception:%s:%s" % (name, type(exc).__name__), "operation %s raised %r" % (op, exc), repr(exc), None))
         return None
     observers(s, viol)
